@@ -15,6 +15,7 @@ import (
 	"runtime"
 	"strings"
 	"sync/atomic"
+	"testing/fstest"
 	"time"
 
 	"github.com/ichiban/prolog"
@@ -60,8 +61,57 @@ var cancelShapes = []cancelShape{
 	{"directive", "exec", "", "foo. :- repeat, fail.", true},
 	{"directive-findall", "exec", "", ":- findall(_, (repeat, fail), _).", true},
 	{"consult", "query", "", "consult('@FILE@').", true},
+	// the loop runs inside a file that is being loaded (cancelLibs); afterwards the same file must load and define its clauses
+	{"load-short", "query", cancelReady, "consult(lib).", true},
+	{"load-ensure-init", "exec", cancelReady, ":- ensure_loaded(lib).", true},
+	{"load-ext", "solution", cancelReady, "consult('lib.pl').", true},
 	{"finite", "query", "", "(between(1, 12, _), fail ; true).", false},
 	{"finite-findall", "solution", "", "findall(X, between(1, 6, X), L), length(L, 6).", false},
+}
+
+const cancelReady = ":- dynamic(ready/0). wait_ready :- repeat, ready, !."
+
+// cancelLibs: the file lib.pl of the shapes that load a file (an in-memory file system); it waits for ready/0 to be asserted
+var cancelLibs = map[string]string{
+	"load-short":       ":- wait_ready.\nanswer(42).\n",
+	"load-ensure-init": "answer(42).\n:- initialization(wait_ready).\n",
+	"load-ext":         "first(41).\n:- wait_ready.\nanswer(42).\n",
+}
+
+// cancelReload: after the cancelled load, the same load must go through and define the file's clauses.
+func cancelReload(p *prolog.Interpreter, shape *cancelShape) string {
+	if err := p.QuerySolution("assertz(ready).").Err(); err != nil {
+		return "assertz(ready): " + err.Error()
+	}
+	done := make(chan string, 1)
+	go func() {
+		var err error
+		if shape.api == "exec" {
+			err = p.Exec(shape.text)
+		} else {
+			err = p.QuerySolution(shape.text).Err()
+		}
+		if err != nil {
+			done <- "the load after the cancelled load: " + err.Error()
+			return
+		}
+		var r struct{ L []int }
+		if err := p.QuerySolution("findall(X, answer(X), L).").Scan(&r); err != nil {
+			done <- "answer/1 after the load that followed the cancelled load: " + err.Error()
+			return
+		}
+		if len(r.L) == 0 || r.L[len(r.L)-1] != 42 {
+			done <- fmt.Sprintf("answer/1 after the load that followed the cancelled load: %v", r.L)
+			return
+		}
+		done <- "ok"
+	}()
+	select {
+	case s := <-done:
+		return s
+	case <-time.After(wd(5 * time.Second)):
+		return "the load after the cancelled load did not return"
+	}
 }
 
 // goid returns the id of the calling goroutine.
@@ -109,6 +159,9 @@ func cancelHandle(c map[string]J) map[string]J {
 
 	var out strings.Builder
 	p := prolog.New(strings.NewReader(""), &out)
+	if lib, ok := cancelLibs[shape.name]; ok {
+		p.FS = fstest.MapFS{"lib.pl": &fstest.MapFile{Data: []byte(lib)}}
+	}
 	if shape.program != "" {
 		if err := p.Exec(shape.program); err != nil {
 			return map[string]J{"status": "badcase", "detail": err.Error()}
@@ -145,14 +198,18 @@ func cancelHandle(c map[string]J) map[string]J {
 	}
 	var active int32 = 1
 	root := ""
-	mine := func() bool {
+	mine := func(hctx context.Context) bool {
 		// only the goroutine that runs the query under test is recorded (a follow-up query or an abandoned search
-		// goroutine must not leak events into this trace)
+		// goroutine must not leak events into this trace). It is the first one that reports a step under the context of this
+		// case: the search goroutine of the previous case's last query may still be winding down when the hooks are installed.
 		if atomic.LoadInt32(&active) == 0 {
 			return false
 		}
 		g := goid()
 		if root == "" {
+			if hctx != ctx {
+				return false
+			}
 			root = g
 		}
 		return g == root
@@ -168,7 +225,7 @@ func cancelHandle(c map[string]J) map[string]J {
 		events = append(events, e)
 	}
 	engine.VerifHooks.OnPoll = func(hctx context.Context) {
-		if !mine() {
+		if !mine(hctx) {
 			return
 		}
 		polls++
@@ -178,7 +235,7 @@ func cancelHandle(c map[string]J) map[string]J {
 		record(map[string]J{"ev": "poll", "l": forceDepth(), "own": own(hctx)})
 	}
 	engine.VerifHooks.OnChild = func(hctx context.Context) {
-		if !mine() {
+		if !mine(hctx) {
 			return
 		}
 		children++
@@ -268,6 +325,9 @@ func cancelHandle(c map[string]J) map[string]J {
 		}
 		_ = sols.Close()
 	}
+	if _, ok := cancelLibs[shape.name]; ok && followup == "ok" && cancelled {
+		followup = cancelReload(p, shape)
+	}
 	events = append(events, map[string]J{"ev": "end", "err": errClass, "endless": shape.endless, "followup": followup, "ms": elapsed.Milliseconds()})
 	return map[string]J{"status": "recorded", "events": events, "input": input}
 }
@@ -322,6 +382,9 @@ func cancelWallHandle(c map[string]J) map[string]J {
 	mode := c["mode"].(string)
 	input := fmt.Sprintf("shape=%s api=%s text=%q %s after %s", shape.name, shape.api, shape.text, mode, delay)
 	p := prolog.New(strings.NewReader(""), &strings.Builder{})
+	if lib, ok := cancelLibs[shape.name]; ok {
+		p.FS = fstest.MapFS{"lib.pl": &fstest.MapFile{Data: []byte(lib)}}
+	}
 	if shape.program != "" {
 		_ = p.Exec(shape.program)
 	}
@@ -378,5 +441,10 @@ func cancelWallHandle(c map[string]J) map[string]J {
 		return map[string]J{"status": "mismatch", "input": input, "what": "follow-up query on the same interpreter", "expected": "X = after", "observed": fmt.Sprint(err)}
 	}
 	_ = sols.Close()
+	if _, ok := cancelLibs[shape.name]; ok {
+		if f := cancelReload(p, shape); f != "ok" {
+			return map[string]J{"status": "mismatch", "input": input, "what": "the same load after the cancelled one", "expected": "loads and defines answer(42)", "observed": f}
+		}
+	}
 	return map[string]J{"status": "ok", "input": input}
 }
